@@ -21,6 +21,9 @@ STATE_EXPR = "pyscript.e1 == '1' or pyscript.e1.old == '9' or pyscript.e1.a == 5
 def fn_src(ctx, name, gen, kinds, extra, indent="", service_first=False):
     L = []
     svc = f"{indent}@service('pyscript.{ctx.split('.')[1]}_{name}')"
+    if "alias" in kinds:
+        # several names in one decorator are aliases of one service function
+        svc = f"{indent}@service('pyscript.{ctx.split('.')[1]}_{name}', 'pyscript.{ctx.split('.')[1]}_{name}_alias')"
     if "service" in kinds and service_first:
         L.append(svc)
     if "state" in kinds:
@@ -64,6 +67,8 @@ def gen(R):
         if k == "define":
             g += 1
             kinds = [x for x in KINDS if R.bool()] or ["event"]
+            if "service" in kinds and R.bool(1, 3):
+                kinds = kinds + ["alias"]
             extra = R.choice([[], [], ["startup"], ["shutdown"], ["startup", "shutdown"]])
             fn = R.choice(FNS)
             if R.bool(1, 4):
@@ -108,6 +113,8 @@ def gen(R):
                     shared[key] = False
             g += 2
             kinds = sorted({"service", R.choice(["state", "event", "time"])} | {x for x in KINDS if R.bool(1, 3)}, key=KINDS.index)
+            if R.bool():
+                kinds = kinds + ["alias"]
             ops.append({"op": "load_race", "ctx": ctx, "gen": g, "kinds": kinds, "then": R.choice(["del", "delete_file", "reload", "rebind"]),
                         "yields": R.int(0, 6), "suspend": R.choice([R.int(4, 30), 60, 100, 200, 300])})
         elif k == "delete_file":
@@ -391,6 +398,7 @@ async def execute(case):
             bus = it.hass.bus.async_listeners().get("ev1", 0)
             ev_q = len(Event.notify.get("ev1", ()))
             svc_exp = sorted(f"{c.split('.')[1]}_{n}" for (c, n, g_, kinds, extra) in live if "service" in kinds)
+            svc_exp += [f"{c.split('.')[1]}_{n}_alias" for (c, n, g_, kinds, extra) in live if "service" in kinds and "alias" in kinds]
             m.shared_ok &= {(c, n, g_) for (c, n, g_, kinds, extra) in live}
             if m.shared_ok:
                 svc_exp.append("shared_svc")
